@@ -345,3 +345,27 @@ func ErrNilSucc(c Cond, src ssa.Value) int {
 	}
 	return -1
 }
+
+// UnguardedLeaf is Unguarded for a value leaf: the target is the use instruction, or, for a value that
+// flows into a phi, the traversal of the CFG edge Pred -> To (so guards tested by Pred's own branch count).
+func UnguardedLeaf(ds *Describer, fn *ssa.Function, from ssa.Instruction, lf Leaf, guard GuardSpec) []ssa.Instruction {
+	if lf.Pred == nil {
+		return Unguarded(ds, fn, from, func(in ssa.Instruction) bool { return in == lf.At }, guard)
+	}
+	// is the edge itself one that establishes the guard?
+	if ifi, ok := lf.At.(*ssa.If); ok {
+		s := guard(DecodeCond(ds, ifi))
+		if s >= 0 {
+			onlyEst := true
+			for i, succ := range lf.Pred.Succs {
+				if succ == lf.To && i != s {
+					onlyEst = false
+				}
+			}
+			if onlyEst {
+				return nil // flows only along the establishing edge
+			}
+		}
+	}
+	return Unguarded(ds, fn, from, func(in ssa.Instruction) bool { return in == lf.At }, guard)
+}
